@@ -1,12 +1,16 @@
 """C14 - every operation returns with the container lock released."""
 import os
-import cross, refcheck, pipeline
+import cross, refcheck, pipeline, vf
+from checks import c13
 LEVEL = "fault_enumeration"
 
 
 def run(chk, tier, seed):
     cross.run_cross(chk, tier, seed, owned={"lock"}, flagsets=["t", "ta"] + (["tf"] if tier == "thorough" else []), modes=["plain"],
                     containers=cross.LOCKABLE)
+    # "another thread's next operation always completes": the lock protocol with two threads, one of which holds the lock long enough for
+    # the other to go through the forced-unlock path; afterwards the holder's own release must still release (MutexTrace.tla)
+    c13.lock_protocol(chk, tier, pipeline.workdir("conc14"), vf.build("conc", mode="plain", wraps=pipeline.default_wraps("plain")))
     # the fifth lock user: the logger
     wd = pipeline.workdir("qlog")
     jobs = [dict(tag="qlog-%s" % (fl.strip("-") or "n"), args=[30 if tier == "quick" else 200, seed, wd, fl, "{out}"]) for fl in ("-", "a", "f")]
@@ -14,5 +18,5 @@ def run(chk, tier, seed):
     chk.cov["rule"] = ("every transition of the container models (all operations x all outcome classes the specs distinguish: success, invalid index, "
                        "missing key, empty, full) replayed on containers created with the *_THREADSAFE option, once plainly and once with every allocation "
                        "inside each call made to fail in turn; the lock tracer (--wrap=pthread_mutex_trylock/lock/unlock) reports the lock depth delta of "
-                       "each call and the trace specification admits only delta 0; a case is one validated call; distinct = distinct model transitions "
+                       "each call and the trace specification admits only delta 0; the lock protocol itself (Mutex.tla) model-checked and a two-thread scenario with the forced-unlock path validated as its behaviour; a case is one validated call; distinct = distinct model transitions "
                        "(x failure positions) + half of the random events")
